@@ -34,6 +34,8 @@ def run(chk):
     chk.rule("R03.4", "from_secret_exponent: secexp confined to [1, n-1]; point = generator * secexp; same secexp stored")
     chk.configs = ["py3"]
     W = world()
+    from . import formulas
+    formulas.sign_formula(chk, W.p, "C03", "R03.7")
 
     # ---------------- R03.1
     q = "ecdsa:Private_key.sign"
